@@ -315,6 +315,17 @@ func C13(run *core.Run) {
 		run.Add("sessions", 1)
 		distinct.Add(fmt.Sprint("router-multi", round))
 	}
+	// an SQLite session whose insert queue is full because the database is busy: cancel must still end it
+	for round := 0; round < 2; round++ {
+		line, err := sqliteBusyCut(conc, round)
+		if err != nil {
+			run.Problem("sqlite busy scenario: %v", err)
+			continue
+		}
+		lines = append(lines, line)
+		run.Add("sessions", 1)
+		distinct.Add(fmt.Sprint("sqlite-busy", round))
+	}
 	var traces []tv.Trace
 	for i, l := range lines {
 		traces = append(traces, tv.Trace{Name: fmt.Sprintf("cut-%d", i), Lines: []any{l}})
@@ -516,4 +527,97 @@ func registrySize(r *mocrelay.RouterHandler) (int, int) {
 	case <-time.After(3 * time.Second):
 		return -1, -1
 	}
+}
+
+// sqliteBusyCut: the database's only connection is held, so the bulk inserter is stalled and the
+// insert queue (2 x EventBulkInsertNum) fills up while a client keeps publishing; the session is
+// then cancelled.
+func sqliteBusyCut(conc *abs.Conc, round int) (map[string]any, error) {
+	st, err := openMemSQL()
+	if err != nil {
+		return nil, err
+	}
+	hctx, hcancel := context.WithCancel(context.Background())
+	defer func() { hcancel(); time.Sleep(5 * time.Millisecond); st.Close() }()
+	h, err := mocsqlite.NewSQLiteHandler(hctx, st.db, &mocsqlite.SQLiteHandlerOption{EventBulkInsertNum: 1 + round, EventBulkInsertDur: time.Hour, MaxLimit: mocsqlite.NoLimit})
+	if err != nil {
+		return nil, err
+	}
+	conn, err := st.db.Conn(hctx)
+	if err != nil {
+		return nil, err
+	}
+	released := false
+	release := func() {
+		if !released {
+			released = true
+			conn.Close()
+		}
+	}
+	defer release()
+	time.Sleep(2 * time.Millisecond)
+	base, _ := mocrelayGoroutines()
+	ctx, cancel := context.WithCancel(context.Background())
+	defer cancel()
+	send := make(chan mocrelay.ServerMsg)
+	recv := make(chan mocrelay.ClientMsg)
+	done := make(chan error, 1)
+	go func() { done <- h.ServeNostr(ctx, send, recv) }()
+	stop := make(chan struct{})
+	var wg sync.WaitGroup
+	wg.Add(2)
+	go func() { // draining peer
+		defer wg.Done()
+		for {
+			select {
+			case <-send:
+			case <-stop:
+				return
+			}
+		}
+	}()
+	fed := 0
+	go func() {
+		defer wg.Done()
+		for i := 0; i < 10; i++ {
+			e := conc.Event(abs.Event{ID: fmt.Sprintf("c13busy_%d_%d", round, i), Author: "a", Kind: 1, TS: int64(i + 1)}, "x")
+			select {
+			case recv <- &mocrelay.ClientEventMsg{Event: e}:
+				fed++
+			case <-stop:
+				return
+			case <-time.After(3 * time.Second):
+				return
+			}
+		}
+	}()
+	time.Sleep(150 * time.Millisecond)
+	t0 := time.Now()
+	cancel()
+	returned := true
+	select {
+	case <-done:
+	case <-time.After(2 * time.Second):
+		returned = false
+	}
+	retIn := time.Since(t0)
+	close(stop)
+	wg.Wait()
+	release()
+	left := 0
+	deadline := time.Now().Add(2 * time.Second)
+	for {
+		n, _ := mocrelayGoroutines()
+		left = n - base
+		if left <= 0 || time.Now().After(deadline) {
+			break
+		}
+		time.Sleep(2 * time.Millisecond)
+	}
+	if left < 0 {
+		left = 0
+	}
+	return map[string]any{"op": "session", "comp": "sqlite (database busy)", "cut": 0, "fed": fed, "ending": "cancel", "peer": "draining",
+		"returned": returned, "return_ms": retIn.Milliseconds(), "goroutines_left": left, "registry_conns": 0, "registry_subs": 0,
+		"gauge_conn_delta": 0, "gauge_req_delta": 0, "shape": "sqlite: session cancelled while the insert queue is full"}, nil
 }
